@@ -698,6 +698,8 @@ def stream_api(c, SI, entries, N, out):
             continue
         c.traces += 1
         # change of reference units
+        if not all(numpy.all(numpy.isfinite(x)) for x in v_real if isinstance(x, numpy.ndarray) and x.dtype.kind == 'f'):
+            c.count('api:non-finite-value'); continue
         try:
             r2 = call(*operands(True))
             v2 = evaluate_result(SI, W, r2, ev)
@@ -912,7 +914,7 @@ def stream_units(c, SI, defs, N):
             r = D(u); real = ('ok', canon(dim_of(SI, r)), unwrap(SI, r))
         except Exception as e: real = ('err', exc_name(e), None)
         replay = dict(stream='construct', dim=pows_str(qd), unit=u, real=repr(real), model=ans[len(fcases) + i])
-        if real[:2] == ('err', 'OverflowError') or 'err|range' in (ans[len(fcases) + i], ans[i]) or (real[:2] == ('err', 'zeroDiv') and m[:2] != ['err', 'zeroDiv'] and re.search(r'[0-9]{2}', u)):
+        if real[:2] == ('err', 'OverflowError') or 'err|range' in (ans[len(fcases) + i], ans[i]) or 'err|inexact' in (ans[len(fcases) + i], ans[i]) or (real[:2] == ('err', 'zeroDiv') and m[:2] != ['err', 'zeroDiv'] and re.search(r'[0-9]{2}', u)):
             c.count('construct:skipped-float-range'); continue
         c.count('construct:' + (real[0] if real[0] == 'ok' else real[1]))
         okm = (real[0] == 'ok' and m[0] == 'ok' and real[1] == pows_parse(m[1]) and close_rel(real[2], F(m[2]), 1e-11)) or (real[0] == 'err' and m[0] == 'err' and real[1] == m[1])
@@ -1360,7 +1362,9 @@ def stream_compositions(c, SI, N):
             if not same(v_real, v_plain, 1e-12 if fn else 0, atol=1e-11 if fn else None):
                 nbad += 1; c.failing_input('composition:value-differs', 'value of a composed expression differs from the same computation on plain numbers', dict(replay, real=repr(v_real)[:200], plain=repr(v_plain)[:200])); continue
             c.traces += 1
-            if all(quarter(d) for d in leafdims) and quarter(spec[1]):
+            finite = all(numpy.all(numpy.isfinite(x)) for x in v_real if isinstance(x, numpy.ndarray) and x.dtype.kind == 'f')
+            if not finite: c.count('compose:non-finite-value')
+            if finite and all(quarter(d) for d in leafdims) and quarter(spec[1]):
                 try:
                     r2 = tree_eval(SI, t, leaves(True), leafdims, True, True)
                     v2 = evaluate_result(SI, W, r2, ev)
